@@ -52,6 +52,21 @@ CLAIMED = {
    "Three-entry journals rendered from G (13 entry templates: 5 transactions incl. status/code/payee|note/tags/virtual/cost/assertion and an unbalanced one, account, commodity inline and with format sub-line, include, P, D, comment lines; neighbours from 4 templates quick, all 13 thorough; 1 and 0 blank lines between entries) with one entry damaged by every truncation at every column, every insertion of ( ) [ ] \" @ = ; | * - 0 : TAB at every column, every replacement of each byte by 8 (quick) / 32 (thorough) alphabet bytes incl. a truncated UTF-8 lead and non-BMP, and every deleted / duplicated / swapped line. Every other entry must be present in Parse(damaged) with a byte-identical dump of all fields and all positions shifted by exactly the inserted/removed lines, keep exactly its own published diagnostics, and every syntax error must lie on a line of the damaged entry.",
    "With 0 blank lines, damages that make the entry's first line an indented (continuation) line or remove it are skipped: by the grammar they move the entry into its predecessor. Damage spanning two entries and entries that depend on each other by design (Y, declarations) are not covered.",
    "DESIGN.md §5 C07"),
+ "C04": ("exploration",
+   "bounded-exhaustive enumeration of documents x formatting configurations through the wire seam; reference edit applier, differential re-parse and re-analysis, character-preservation oracle",
+   "Documents: (a) journals rendered from G with <= 2 deviations over 26 emphasis parameter groups (quoted commodities, comment spacing, 0-12 decimals, signs, costs, assertions, virtual postings, status marks, tabs, CRLF, directives before the transactions ...), (b) the same journals after every C07 damage of the first transaction, (c) every sequence of <= 2 (3 thorough) fragments of a 24-fragment alphabet, alone and appended to a posting line. Configurations: indent 1..8 x alignment on/off x minimum column {0,1,10,40,80} x 10 commodity-format sets (commodity / D directives, mark . or ,, groups none/,/./space, 0-8 decimals) declared in the file or in another workspace file (thorough: all 128 mark x group x decimals formats). The returned edits are applied by the reference buffer; Parse(original) and Parse(result) must agree on every semantic field with quantities as exact rationals, published diagnostics must agree, non-posting lines may only lose trailing blanks, and on a rewritten line every character other than blanks, quotes and number spellings must survive.",
+   "Meaning is judged by the project's own parser (C03 shows it faithful on G) and by the model, not by hledger. Cases whose edits are not well-formed are charged to C05. Two recorded findings (three-decimal display formats; whitespace-only line inside a transaction) are pinned by the repository's own tests.",
+   "DESIGN.md §5 C04"),
+ "C05": ("exploration",
+   "same enumeration as C04; well-formedness of the edit list against a reference UTF-16 buffer, second formatting run, alignment oracle from the model's position map",
+   "For every (document, configuration) of the C04 enumeration: every edit range lies inside the document (line < line count, character <= UTF-16 length of the line without its terminator), start <= end, no position inside a surrogate pair, no two edits overlap; formatting the result again changes nothing; with alignment on, for journals rendered from the model, every posting line starts with exactly the configured indent and all amounts following an account without status mark start in one column (counted in characters) that is >= indent + longest bracketed account + 2 and >= the minimum column.",
+   "Display width of wide/combining characters is not considered (the property says characters). One recorded finding (three-decimal display formats) shares its cause with C04.",
+   "DESIGN.md §5 C05"),
+ "C08": ("exploration",
+   "bounded-exhaustive enumeration of journals from G x every cursor position x every position-carrying feature; generic range validator plus the model's position map as ground truth",
+   "Documents: an include line + the default journal with <= 1 deviation (thorough <= 2) over 33 parameter groups (non-ASCII and non-BMP text in description, payee, account, comment, commodity; code; status; blanks; quoted commodities; tags after non-ASCII text; adjacent entries; directives) plus 18 listed pairs, with one included file on disk so that Locations in other files occur. For every cursor position of every line: hover, prepareRename, definition, references (with and without declaration), rename, completion, inlineCompletion; once per document: published diagnostics, documentSymbol, workspace/symbol (two queries), documentLink, foldingRange. Every Range found anywhere in a result is validated against the text of the document it refers to (line inside, character <= UTF-16 line length, start <= end, not inside a surrogate pair); a range reported for an account, commodity, payee, date, tag, amount, include path or entry must equal the UTF-16 span recorded when the element was rendered (and contain the cursor for cursor-driven features); folds and outline symbols must be pairwise disjoint or nested; completion ranges end at the cursor and start on its line at or before it.",
+   "Whether a feature must answer at a position is not part of the property and is not checked. CodeAction/ExecuteCommand are not wired in the dispatcher. Violations already present with a proper subset of the deviations are charged to that subset.",
+   "DESIGN.md §4.5, §5 C08"),
 }
 
 NOT_YET = "check not built yet in this session (work in progress; see DESIGN.md §5 for the plan)"
